@@ -32,6 +32,9 @@ func inModule(fn *ssa.Function) bool {
 }
 
 func pkgOf(fn *ssa.Function) *ssa.Package {
+	if fn != nil && fn.Pkg == nil && fn.Parent() == nil && fn.Origin() == nil {
+		return fnPkg(fn) // wrappers of method expressions and method values
+	}
 	for fn != nil {
 		if fn.Pkg != nil {
 			return fn.Pkg
